@@ -194,42 +194,39 @@ theorem C11_list_response (ops : List SysOp) (raw : Bytes) (n : Name) (t : Topic
 section P1slice
 open P1
 
-/-- Before the fix (7f785e8): a DeleteSubscription that gets through while the attach is still on
-    its way detaches first; the late attach then leaves a subscription on the topic that no longer
-    exists — quiescent, for ever (ListTopicSubscriptions shows a ghost; every Publish posts to it). -/
 theorem C11_pinned_ghost :
     ∃ s, run (init false) [.create, .deleteStart, .actorDelete 0, .helperSend 0, .attachSend 0, .topicTake,
                            .helperFinish 0, .topicTake, .attachFinish 0] = some s ∧
-      s.topic = some 0 ∧ s.mgr = none ∧ Quiescent s := by
-  refine ⟨_, rfl, rfl, rfl, rfl, rfl, ?_⟩
+      s.topic = some 0 ∧ s.mgr = none ∧ s.tdead = false ∧ Quiescent s := by
+  refine ⟨_, rfl, rfl, rfl, rfl, rfl, rfl, ?_⟩
   intro g
   by_cases hg : g = 0
   · subst hg; simp [upd, init]
   · simp [upd, init, hg]
 
-/-- No ghost, at any moment: whatever the topic lists under the name is the registered subscription. -/
-theorem C11_no_ghost (s : State) (hr : Reachable (init true) s) (g : Nat) (ht : s.topic = some g) : s.mgr = some g := by
+/-- No ghost, at any moment, on a live topic: whatever the topic lists under the name is the registered subscription. -/
+theorem C11_no_ghost (s : State) (hr : Reachable (init true) s) (hlive : s.tdead = false) (g : Nat) (ht : s.topic = some g) :
+    s.mgr = some g := by
   have h := inv_reachable s hr
   cases hm : s.mgr with
-  | none => have := (h.empty hm).1; rw [this] at ht; cases ht
+  | none => have := (h.empty hm).1 hlive; rw [this] at ht; cases ht
   | some c =>
-    have := (h.cur c hm).2.2.1
+    have := (h.cur c hm).2.2.1 hlive
     rw [this] at ht
     unfold expectedTopic at ht
     split at ht
     · cases ht; rfl
     · cases ht
 
-/-- At every quiescent moment the topic's entry for the name is exactly the registered
-    subscription: none if none is registered, that one if one is (no ghost, no orphan). -/
-theorem C11_quiescent_exact (s : State) (hr : Reachable (init true) s) (hq : Quiescent s) : s.topic = s.mgr := by
+theorem C11_quiescent_exact (s : State) (hr : Reachable (init true) s) (hlive : s.tdead = false) (hq : Quiescent s) :
+    s.topic = s.mgr := by
   have h := inv_reachable s hr
   obtain ⟨_, _, hg⟩ := hq
   cases hm : s.mgr with
-  | none => exact (h.empty hm).1
+  | none => exact (h.empty hm).1 hlive
   | some c =>
     obtain ⟨_, _, c3, c4, c5, _, _⟩ := h.cur c hm
-    rw [c3]
+    rw [c3 hlive]
     have ha : (s.gen c).att = .finished := by
       rcases (hg c).1 with h1 | h1
       · exact absurd h1 c4
@@ -240,33 +237,32 @@ theorem C11_quiescent_exact (s : State) (hr : Reachable (init true) s) (hq : Qui
       · exact absurd h1 c5
     simp [expectedTopic, ha, hh]
 
-/-- Never stuck: while anything is left to do, some step is enabled (in particular a Delete that
-    waits for `attach_finished` is never left waiting: the attach task always gets there). -/
-theorem C11_progress (s : State) (hr : Reachable (init true) s) (hq : ¬ Quiescent s) : ∃ l s', step s l = some s' := by
+/-- Never stuck: while anything is left to do, some step OF THE PROTOCOL ITSELF (not a new request,
+    not a topic deletion) is enabled; in particular a Delete that waits for `attach_finished` is
+    never left waiting. -/
+theorem C11_progress (s : State) (hr : Reachable (init true) s) (hq : ¬ Quiescent s) :
+    ∃ l, l.internal = true ∧ ∃ s', step s l = some s' := by
   have h := inv_reachable s hr
-  -- a non-empty topic mailbox can always be served
   by_cases hmb' : s.mbT ≠ []
   · have hmb := hmb'
-    refine ⟨.topicTake, ?_⟩
+    refine ⟨.topicTake, rfl, ?_⟩
     simp only [step]
     cases hx : s.mbT with
     | nil => exact absurd hx hmb
     | cons m rest => cases m <;> exact ⟨_, rfl⟩
   have hmb : s.mbT = [] := Classical.not_not.mp hmb'
-  -- a generation with attach work left
-  have attach_work : ∀ g, (s.gen g).att ≠ .none → (s.gen g).att ≠ .finished → ∃ l s', step s l = some s' := by
+  have attach_work : ∀ g, (s.gen g).att ≠ .none → (s.gen g).att ≠ .finished → ∃ l, l.internal = true ∧ ∃ s', step s l = some s' := by
     intro g h1 h2
     have hm := active_is_cur h g (Or.inl ⟨h1, h2⟩)
     obtain ⟨_, c2, _⟩ := h.cur g hm
     cases ha : (s.gen g).att with
     | none => exact absurd ha h1
     | finished => exact absurd ha h2
-    | toSend => exact ⟨.attachSend g, by simp [step, ha]⟩
+    | toSend => exact ⟨.attachSend g, rfl, by simp [step, ha]⟩
     | sent => rw [hmb] at c2; simp [expectedMb, ha] at c2
-    | replied => exact ⟨.attachFinish g, by simp [step, ha]⟩
+    | replied => exact ⟨.attachFinish g, rfl, by simp [step, ha]⟩
   by_cases hd : s.dels = []
-  · -- then some generation has work left
-    have : ¬ ∀ g, ((s.gen g).att = .none ∨ (s.gen g).att = .finished) ∧ ((s.gen g).helper = .none ∨ (s.gen g).helper = .done) :=
+  · have : ¬ ∀ g, ((s.gen g).att = .none ∨ (s.gen g).att = .finished) ∧ ((s.gen g).helper = .none ∨ (s.gen g).helper = .done) :=
       fun hall => hq ⟨hmb, hd, hall⟩
     obtain ⟨g, hg⟩ := Classical.not_forall.mp this
     by_cases ha : (s.gen g).att = .none ∨ (s.gen g).att = .finished
@@ -276,17 +272,16 @@ theorem C11_progress (s : State) (hr : Reachable (init true) s) (hq : ¬ Quiesce
       cases hx : (s.gen g).helper with
       | none => exact absurd (Or.inl hx) hh
       | done => exact absurd (Or.inr hx) hh
-      | toSend => exact ⟨.helperSend g, by simp [step, hx]⟩
+      | toSend => exact ⟨.helperSend g, rfl, by simp [step, hx]⟩
       | sent => rw [hmb] at c2; simp [expectedMb, hx] at c2
-      | removed => exact ⟨.helperFinish g, by simp [step, hx]⟩
+      | removed => exact ⟨.helperFinish g, rfl, by simp [step, hx]⟩
     · exact attach_work g (fun hc => ha (Or.inl hc)) (fun hc => ha (Or.inr hc))
-  · -- a pending Delete: either it can go, or its generation's attach is still on its way
-    cases hx : s.dels with
+  · cases hx : s.dels with
     | nil => exact absurd hx hd
     | cons g rest =>
       have hlt : g < s.next := h.dl g (by rw [hx]; simp)
       by_cases ha : (s.gen g).att = .finished
-      · refine ⟨.actorDelete 0, ?_⟩
+      · refine ⟨.actorDelete 0, rfl, ?_⟩
         simp only [step, hx, List.getElem?_cons_zero, ha]
         by_cases hdel : (s.gen g).deleted = true
         · simp [hdel]
@@ -297,14 +292,16 @@ theorem C11_progress (s : State) (hr : Reachable (init true) s) (hq : ¬ Quiesce
           · exact fun hn => by have := (h.old g hlt hc).1; rw [hn] at this; cases this
         exact attach_work g hnone ha
 
-/-! Non-vacuity: a run in which delete races the attach and everything still lines up. -/
-example : ∃ s, run (init true) [.create, .deleteStart, .attachSend 0, .topicTake, .attachFinish 0, .actorDelete 0,
-                                 .helperSend 0, .create] = none ∧
-    run (init true) [.create, .deleteStart, .attachSend 0, .topicTake, .attachFinish 0, .actorDelete 0,
-                     .helperSend 0, .topicTake, .helperFinish 0, .create, .attachSend 1, .topicTake, .attachFinish 1] = some s ∧
-    s.topic = some 1 ∧ s.mgr = some 1 := ⟨_, rfl, rfl, rfl, rfl⟩
+/-- Deleting the topic deletes no subscription, and a subscription created afterwards on another,
+    live topic is attached there like any other. -/
+example : ∃ s, run (init true) [.create, .attachSend 0, .topicTake, .attachFinish 0, .topicDie, .deleteStart, .actorDeleteDirect 0,
+                                 .create, .retarget 1, .attachSend 1, .topicTake, .attachFinish 1] = some s ∧
+    s.topic = some 1 ∧ s.mgr = some 1 ∧ s.tdead = false := ⟨_, rfl, rfl, rfl, rfl⟩
 
-/-- The repaired Delete cannot overtake the attach. -/
+example : ∃ s, run (init true) [.create, .deleteStart, .attachSend 0, .topicTake, .attachFinish 0, .actorDelete 0,
+                                 .helperSend 0, .topicTake, .helperFinish 0, .create, .attachSend 1, .topicTake, .attachFinish 1] = some s ∧
+    s.topic = some 1 ∧ s.mgr = some 1 := ⟨_, rfl, rfl, rfl⟩
+
 example : run (init true) [.create, .deleteStart, .actorDelete 0] = none := rfl
 
 end P1slice
